@@ -158,6 +158,8 @@ class HbHarness:
                 for _ in range(r["inflight"]):
                     self._request(c)
                 c.msg_received = not r["idle"]
+                if not r.get("writable", True):
+                    c._socket_writable = False      # what the libev reactor does while its write buffer is backed up
             elif r["alive"] == "defunct":
                 c.socket_error()
             else:
@@ -312,7 +314,7 @@ class HbHarness:
                  "sent": self._options_seen(name) - self.mark[name], "returned": self.round_returns[name]}
             if alive == "ok":
                 r.update(idle=not c.msg_received, inflight=c.in_flight, free=list(c.request_ids),
-                         highest=c.highest_request_id)
+                         highest=c.highest_request_id, writable=bool(c._socket_writable))
             out[name] = r
         return out
 
@@ -322,7 +324,8 @@ def spec_view(st):
     for name, r in st["conn"].items():
         v = {"alive": str(r["alive"]), "held": r["held"], "sent": st["sentCnt"][name], "returned": st["retCnt"][name]}
         if r["alive"] == "ok":
-            v.update(idle=r["idle"], inflight=r["inflight"], free=list(r["free"]), highest=r["highest"])
+            v.update(idle=r["idle"], inflight=r["inflight"], free=list(r["free"]), highest=r["highest"],
+                     writable=r["writable"])
         out[str(name)] = v
     return out
 
